@@ -26,3 +26,7 @@ uint8_t _ZNK7QString10startsWithERKS_N2Qt15CaseSensitivityE(char *self, char *o,
   return _ZN9QtPrivate10startsWithE11QStringViewS0_N2Qt15CaseSensitivityE(a->f1, (char*)qs_chars(a), b->f1, (char*)qs_chars(b), cs); }
 uint8_t _ZNK7QString8endsWithERKS_N2Qt15CaseSensitivityE(char *self, char *o, uint32_t cs) { QAD *a = *(QAD**)self, *b = *(QAD**)o;
   return _ZN9QtPrivate8endsWithE11QStringViewS0_N2Qt15CaseSensitivityE(a->f1, (char*)qs_chars(a), b->f1, (char*)qs_chars(b), cs); }
+/* QString::lastIndexOf(QChar, from, cs) (libQt5Core) */
+static int64_t vpl_rfind16(QAD *d, int32_t upto, uint16_t c) { int64_t r = -1; for (uint32_t i = 0; i < QHINT16(d); i++) { if (i >= d->f1) break; if ((int32_t)i <= upto && qs_chars(d)[i] == c) r = i; } return r; }
+uint32_t _ZNK7QString11lastIndexOfE5QChariN2Qt15CaseSensitivityE(char *self, uint16_t c, uint32_t from, uint32_t cs) { QAD *d = *(QAD**)self; int32_t n = (int32_t)d->f1, f = (int32_t)from;
+  if (f < 0) f += n; if (f < 0 || n == 0) return (uint32_t)-1; if (f >= n) f = n - 1; if (numS(d).isnum) return (uint32_t)-1; return (uint32_t)vpl_rfind16(d, f, c); }
